@@ -12,6 +12,8 @@ RULE = ("cases: two components (built-in or synthetic) each with 1..6 experiment
         "random order, all in kg/(m2 h kPa) or all in SI or GPU, activation energies -60..120 kJ/mol stated for all / none / some, "
         "random or exactly-Arrhenius permeances; query temperature 260..420 K (an experiment temperature in 20% of cases), kept >= 1e-6 K "
         "from a tie between the two nearest experiments; permeate temperature / pressure / none for the pure-component flux. "
+        "Also: the same experiments written to ideal_experiments.csv (blank cells for unstated values) and loaded with Membrane.load (built-in "
+        "components), whole-kelvin temperatures as int / numpy.int64, the same question asked twice. "
         "non-trivial = query temperature differs from every experiment temperature and |Ea used| > 1 kJ/mol; distinct = SHA-1 of the case JSON")
 ASSUMPTIONS = ["reference: nearest experiment, stated Ea or least-squares slope of ln P vs 1/T (centred two-pass formula), tolerances "
                "1e-9 relative plus the propagated uncertainty of the regression"]
